@@ -94,7 +94,7 @@ def gen_packages(run, n):
 def gen_runs(rng, optfields, thorough):
     """[(entry, [field,...])]"""
     runs = []
-    nseq = 4 if thorough else 2
+    nseq = 5 if thorough else 3
     for entry in (0, 1, 2):
         for k in range(nseq):
             if not optfields:
@@ -391,7 +391,7 @@ def main(run):
         "K_opt_nil_embed": h_nil_embed(wobs), "K_opt_promoted_setdefault": h_promoted(wobs)}))
     run.log("findings replayed")
 
-    npk = 900 if run.thorough() else 45
+    npk = 900 if run.thorough() else 70
     pkgs, gstats = gen_packages(run, npk)
     obs, mod = observe(run, shoot, sigbin, "c13mod", pkgs)
     pkgdefs, rendered, index = render_cases(pkgs, obs)
@@ -453,11 +453,11 @@ def main(run):
         "evaluations": sum(len(obs[(p["name"], s["name"])]["runs"]) for p, s in index),
         "distinct_nontrivial": len(nontrivial),
         "rule": ("%d generated packages (the C02 grammar without type parameters, 0..N def= directives, value/pointer "
-                 "embedding with shadowing), `shoot new -opt` with -short on ~30%% of them; per struct %d option sequences of "
+                 "embedding with shadowing), `shoot new -opt` with -short on ~30%% of them; per struct and entry point %d option sequences of "
                  "length 0..4 drawn with repetition from the struct's option functions, for each of the three entry points "
                  "NewT(sentinels).With, (&T{}).With, shoot.NewWith; every leaf is read before and after.  non-trivial = "
                  "distinct (struct, -short, entry, sequence) in agreeing cases where the sequence has >= 2 options, repeats a "
-                 "field, or meets a default" % (len(pkgs), 4 if run.thorough() else 2)),
+                 "field, or meets a default" % (len(pkgs), 5 if run.thorough() else 3)),
         "samples": samples,
         "traces_validated_against_impl": nruns,
         "programs": len(pkgs),
